@@ -97,6 +97,11 @@ Theorem C19_model_fields_in_source : forall m, In m all_specs -> forall fs, In f
   field_in_source gen_prefixes m fs = true.
 Proof. exact model_fields_in_source. Qed.
 Print Assumptions C19_model_fields_in_source.
+(* static backstop for size-dependent export/import bugs: no paging helper, limit, slice or bounded
+   iteration in the call graph of any ExportGenesis / InitGenesis (regenerated every run) *)
+Theorem C19_genesis_sites_reviewed : forall g, In g gen_genesis_sites -> site_reviewed g = true.
+Proof. exact (proj1 (forallb_forall _ _) genesis_sites_reviewed). Qed.
+Print Assumptions C19_genesis_sites_reviewed.
 Theorem C19_translator_understood_everything : gen_unknown = [].
 Proof. exact translator_understood_everything. Qed.
 Print Assumptions C19_translator_understood_everything.
